@@ -181,6 +181,23 @@ Proof.
 Qed.
 Print Assumptions C09_legendre_partition_of_unity.
 
+(* ElementTriBDM1: polynomials in x, y and the indeterminate s standing for sqrt 3 (the real lbasis run with the module
+   constants s_1, s_2 = 1/2 -+ s/6 re-evaluated from the source and arithmetic in Q(s)/(s^2 - 3); every emitted
+   coefficient has degree <= 1 in s, so the identity below is a polynomial identity in (x, y, s) and holds in particular
+   at s = sqrt 3).  Tie: tolerance correspondence with the numerical lbasis at s = sqrt 3. *)
+Theorem C09_bdm1_div_is_divergence :
+  forall (R : Type) (rO rI : R) (radd rmul rsub : R -> R -> R) (ropp : R -> R) (req : R -> R -> Prop) (phi : Q -> R),
+    Equivalence req -> ring_eq_ext radd rmul ropp req -> ring_theory rO rI radd rmul rsub ropp req ->
+    ring_morph rO rI radd rmul rsub ropp req 0%Q 1%Q Qplus Qmult Qminus Qopp Qeq_bool phi ->
+    forall e, In e sqrt3_elements -> forall b, In b (e_basis e) ->
+      bfun_spec R rO rI radd rmul ropp req phi (e_dim e) b.
+Proof.
+  intros R rO rI radd rmul rsub ropp req phi H1 H2 H3 H4 e He.
+  apply (deriv_ok_sound R rO rI radd rmul rsub ropp req phi H1 H2 H3 H4).
+  exact (proj1 (Forall_forall _ _) sqrt3_deriv_ok e He).
+Qed.
+Print Assumptions C09_bdm1_div_is_divergence.
+
 (* ---- mapped derivatives (any non-degenerate affine cell) ---- *)
 
 (* chain rule, for EVERY polynomial p in at most n variables, every affine map F(x) = b + A x of a d-dimensional
